@@ -334,8 +334,9 @@ def _replay(f: dict):
     return any(a["clause"] == f["clause"] for a in again), code
 
 
-def _chunks(items: List[str], size: int = 200) -> List[List[str]]:
-    return [items[i:i + size] for i in range(0, len(items), size)]
+def _chunks(items: List[str]) -> List[List[str]]:
+    n = max(1, min(len(items) // 20 + 1, 512))  # dealt round-robin: balanced cost per chunk
+    return [c for c in (items[i::n] for i in range(n)) if c]
 
 
 def run(ctx, tier: str, seed: int) -> None:
